@@ -71,7 +71,8 @@ def run_c15(it):
         maxd = float("inf") if f["maxdist"] < 0 else float(f["maxdist"]) + 0.5
 
         def hook(frm, to, dist, _f=f):
-            if _f.get("swap") and (len(events) % 2 == 0):
+            # (HierarchicalTree ignores the value returned by the user's hook: no side swapping there)
+            if _f.get("swap") and _f["kind"] == "hier" and (len(events) % 2 == 0):
                 events.append([int(to), int(frm), enc(dist)])
                 return (frm, to)           # the other side survives
             events.append([int(frm), int(to), enc(dist)])
